@@ -840,6 +840,71 @@ class Engine(ExprMixin, BuiltinMixin):
         # loop exit: invariant holds and condition is false
         return
 
+    def _accumulation_loop(self, st, s) -> bool:
+        """`for t in it: acc.append(e)` / `acc.extend(e)` (possibly under if/else) on a local list that has not escaped is
+        the comprehension `acc += [x for t in it for x in segment(t)]`: executed as that comprehension (same calls, same
+        order), so the idiom needs no hand-written invariant."""
+        def mentions(node, name):
+            return any(isinstance(x, ast.Name) and x.id == name for x in ast.walk(node))
+
+        def seg_of(stmts, name):
+            segs = []
+            for stn in stmts:
+                if isinstance(stn, ast.Expr) and isinstance(stn.value, ast.Call) and isinstance(stn.value.func, ast.Attribute) \
+                        and isinstance(stn.value.func.value, ast.Name) and stn.value.func.value.id == name \
+                        and stn.value.func.attr in ("append", "extend") and len(stn.value.args) == 1 and not stn.value.keywords:
+                    e = stn.value.args[0]
+                    if mentions(e, name):
+                        return None
+                    segs.append(ast.List(elts=[e], ctx=ast.Load()) if stn.value.func.attr == "append" else e)
+                elif isinstance(stn, ast.If) and not mentions(stn.test, name):
+                    a = seg_of(stn.body, name)
+                    b = seg_of(stn.orelse, name) if stn.orelse else ast.List(elts=[], ctx=ast.Load())
+                    if a is None or b is None:
+                        return None
+                    segs.append(ast.IfExp(test=stn.test, body=a, orelse=b))
+                else:
+                    return None
+            if not segs:
+                return None
+            out = segs[0]
+            for x in segs[1:]:
+                out = ast.BinOp(left=out, op=ast.Add(), right=x)
+            return out
+
+        names = set()
+        for x in ast.walk(ast.Module(body=s.body, type_ignores=[])):
+            if isinstance(x, ast.Attribute) and isinstance(x.value, ast.Name) and x.attr in ("append", "extend"):
+                names.add(x.value.id)
+        if len(names) != 1:
+            return False
+        name = names.pop()
+        if name not in getattr(self, "unaliased", ()) or self.inline_depth != 0:
+            return False
+        acc = st.frames[0].get(name)
+        if acc is None or not (is_static(acc, "emptylist") or (isinstance(acc, V) and acc.t[0] == "list")):
+            return False
+        seg = seg_of(s.body, name)
+        if seg is None:
+            return False
+        if isinstance(seg, ast.List) and len(seg.elts) == 1:
+            comp = ast.ListComp(elt=seg.elts[0], generators=[ast.comprehension(target=s.target, iter=s.iter, ifs=[], is_async=0)])
+        else:
+            item = "__acc_item"
+            comp = ast.ListComp(elt=ast.Name(id=item, ctx=ast.Load()),
+                                generators=[ast.comprehension(target=s.target, iter=s.iter, ifs=[], is_async=0),
+                                            ast.comprehension(target=ast.Name(id=item, ctx=ast.Store()), iter=seg, ifs=[], is_async=0)])
+        ast.copy_location(comp, s)
+        ast.fix_missing_locations(comp)
+        res = self.eval(st, comp)
+        if is_static(acc, "emptylist"):
+            st.frames[0][name] = res
+        elif is_static(res, "emptylist"):
+            pass
+        else:
+            self.list_extend(st, acc, res)
+        return True
+
     def stmt_For(self, st, s):
         if s.orelse:
             raise Unsupported("for/else")
@@ -864,6 +929,8 @@ class Engine(ExprMixin, BuiltinMixin):
         lid = self._loop_id()
         invs = self.cur.invariants.get(lid)
         if invs is None:
+            if self._accumulation_loop(st, s):
+                return
             raise Unsupported(f"for loop {lid} (line {s.lineno}) has no invariant")
         # ghost index variable: <lid>_i ; the implicit invariant 0 <= i <= n is added
         iname = f"{lid}_i"
